@@ -176,8 +176,8 @@ def calc_cav_dp(asig):
     start = 0
     pga_max = 0
     cav_dp = 0
-    points_per_sec = (int(1 / asig.dt))
-    total_seconds = int(asig.time[-1])
+    points_per_sec = int(round(1 / asig.dt, 6))
+    total_seconds = int(round(asig.time[-1], 6))
     cav_dp_1_series = []
     acc_in_g = asig.values / 9.81
 
